@@ -1,7 +1,7 @@
 /-
 C17 — offline-mode policy: `repairOfflineMode`, `repairSlaveOfflineMode`, `repairMasterOfflineMode`
 (internal/app/app.go ~1569-1690) and the three filters of offline_mode_filter.go.
-Lags and durations are whole seconds.
+Lags and durations are integers in one unit (the replay feeds milliseconds: the code's lags are floats of seconds).
 -/
 import MysyncModel.NodeState
 
